@@ -52,6 +52,9 @@ pub struct SCase {
     pub salt: u64,
     pub fastrand_seed: u64,
     pub probe: bool,
+    /// control run: the threads' programs are executed one after the other on one thread
+    #[serde(default)]
+    pub sequential: bool,
 }
 
 #[derive(Clone, Debug, PartialEq, Serialize, Deserialize)]
@@ -106,11 +109,21 @@ pub struct CallEv {
     pub invoke: u64,
     pub ret: u64,
     pub executed: bool,
+    /// stamp of the returned value
+    pub stamp: u64,
+}
+
+#[derive(Clone, Debug)]
+pub struct InvEv {
+    pub op: SOp,
+    pub invoke: u64,
+    pub ret: u64,
 }
 
 #[derive(Default)]
 pub struct Report {
     pub calls: Vec<CallEv>,
+    pub invs: Vec<InvEv>,
     pub counters: BTreeMap<String, u64>,
     pub classes: BTreeSet<String>,
     pub steps: u64,
@@ -345,22 +358,34 @@ fn l2_op(case: &SCase, op: &SOp) {
             // did *this* call run the body? its own execution record is newer than n0 and carries the returned stamp
             let me = world::current_task();
             let executed = world::with(|w| w.execs[n0.min(w.execs.len())..].iter().any(|e| e.stamp == r.stamp && e.task == me));
-            rep(|rp| rp.calls.push(CallEv { f: *f, k: *k, invoke, ret, executed }));
+            rep(|rp| rp.calls.push(CallEv { f: *f, k: *k, invoke, ret, executed, stamp: r.stamp }));
         }
         SOp::InvTag(t) => {
+            let invoke = EVT.fetch_add(1, Ordering::Relaxed);
             cachelito_core::invalidate_by_tag(t);
+            let ret = EVT.fetch_add(1, Ordering::Relaxed);
+            rep(|rp| rp.invs.push(InvEv { op: op.clone(), invoke, ret }));
             count("fault.group_invalidation");
         }
         SOp::InvEvent(t) => {
+            let invoke = EVT.fetch_add(1, Ordering::Relaxed);
             cachelito_core::invalidate_by_event(t);
+            let ret = EVT.fetch_add(1, Ordering::Relaxed);
+            rep(|rp| rp.invs.push(InvEv { op: op.clone(), invoke, ret }));
             count("fault.group_invalidation");
         }
         SOp::InvDep(t) => {
+            let invoke = EVT.fetch_add(1, Ordering::Relaxed);
             cachelito_core::invalidate_by_dependency(t);
+            let ret = EVT.fetch_add(1, Ordering::Relaxed);
+            rep(|rp| rp.invs.push(InvEv { op: op.clone(), invoke, ret }));
             count("fault.group_invalidation");
         }
         SOp::InvName(t) => {
+            let invoke = EVT.fetch_add(1, Ordering::Relaxed);
             cachelito_core::invalidate_cache(t);
+            let ret = EVT.fetch_add(1, Ordering::Relaxed);
+            rep(|rp| rp.invs.push(InvEv { op: op.clone(), invoke, ret }));
             count("fault.group_invalidation");
         }
         SOp::InvWith { name, mask } => {
@@ -508,6 +533,37 @@ pub fn history_checks(case: &SCase, rp: &Report, prop: &str) -> Option<(String, 
             }
         }
     }
+    // C12 under concurrency: an entry whose storing call had returned before a matching group
+    // invalidation was invoked must not be served to a call invoked after that invalidation returned
+    for c in rp.calls.iter().filter(|c| !c.executed) {
+        let s = spec(c.f);
+        if !(registered(s) && has_meta(s)) {
+            continue;
+        }
+        let d = match rp.calls.iter().find(|d| d.executed && d.stamp == c.stamp) {
+            Some(d) => d,
+            None => continue,
+        };
+        for i in &rp.invs {
+            let m = match &i.op {
+                SOp::InvTag(t) => s.tags.contains(&t.as_str()),
+                SOp::InvEvent(t) => s.events.contains(&t.as_str()),
+                SOp::InvDep(t) => s.deps.contains(&t.as_str()),
+                SOp::InvName(t) => s.reg_name == t,
+                _ => false,
+            };
+            if m && d.ret < i.invoke && i.ret < c.invoke {
+                return Some((
+                    "entry_survived_invalidation".into(),
+                    vec!["C12".into()],
+                    format!(
+                        "{}({}) [{}] was served the value stored by a call that returned at event {} although {:?} (events {}..{}) ran in between and the call was invoked at event {}",
+                        s.fn_name, c.k, s.attrs, d.ret, i.op, i.invoke, i.ret, c.invoke
+                    ),
+                ));
+            }
+        }
+    }
     let _ = prop;
     None
 }
@@ -536,8 +592,22 @@ pub fn run_case(case: Arc<SCase>, prop: String) {
         reg_scenario(&case);
         return;
     }
+    if case.sequential {
+        for t in 0..case.threads.len() {
+            fastrand::seed(mix(&[case.fastrand_seed, t as u64]));
+            for op in &case.threads[t] {
+                match &case.kind {
+                    Kind::L1(p) => l1_op(p, op),
+                    _ => l2_op(&case, op),
+                }
+            }
+        }
+    }
     let mut hs = Vec::new();
     for t in 0..case.threads.len() {
+        if case.sequential {
+            break;
+        }
         let c = Arc::clone(&case);
         hs.push(shuttle::thread::spawn(move || {
             fastrand::seed(mix(&[c.fastrand_seed, t as u64]));
@@ -678,7 +748,7 @@ pub fn gen_case(prop: &str, seed: u64) -> (SCase, Sched) {
     let shards = *r.pick(&[1u8, 2, 4]);
     let salt = r.next_u64();
     let fastrand_seed = r.next_u64();
-    if prop == "C12" {
+    if prop == "C12" && r.chance(1, 2) {
         // registration scenario over the invalidation-group family
         let grp: Vec<&FnSpec> = SPECS.iter().filter(|s| s.family == "group" || s.family == "name").filter(|s| registered(s)).collect();
         let mut fns = Vec::new();
@@ -706,7 +776,7 @@ pub fn gen_case(prop: &str, seed: u64) -> (SCase, Sched) {
                 });
             }
         }
-        return (SCase { kind: Kind::Reg, fns, threads: vec![ops], shards, salt, fastrand_seed, probe: false }, sched);
+        return (SCase { kind: Kind::Reg, fns, threads: vec![ops], shards, salt, fastrand_seed, probe: false, sequential: false }, sched);
     }
     let l1 = matches!(prop, "C18" | "C17") && r.chance(1, 3);
     let nthreads = r.range(2, 3) as usize;
@@ -738,7 +808,7 @@ pub fn gen_case(prop: &str, seed: u64) -> (SCase, Sched) {
             }
             threads.push(ops);
         }
-        return (SCase { kind: Kind::L1(p), fns: vec![], threads, shards, salt, fastrand_seed, probe: true }, sched);
+        return (SCase { kind: Kind::L1(p), fns: vec![], threads, shards, salt, fastrand_seed, probe: true, sequential: false }, sched);
     }
     // L2 program
     let pool: Vec<&FnSpec> = SPECS
@@ -753,6 +823,20 @@ pub fn gen_case(prop: &str, seed: u64) -> (SCase, Sched) {
         .collect();
     let mut fns: Vec<u16> = Vec::new();
     let nf = if prop == "C03" { r.range(1, 2) } else { r.range(1, 3) };
+    if prop == "C12" {
+        // concurrent group invalidation: caches of the group family (shared tags / events / dependencies)
+        let grp: Vec<&&FnSpec> = pool.iter().filter(|s| s.family == "group" && has_meta(s)).collect();
+        let first = **r.pick(&grp);
+        fns.push(first.id);
+        // a partner that shares a name with it, if there is one
+        let partners: Vec<&&&FnSpec> = grp
+            .iter()
+            .filter(|s| s.id != first.id && (s.tags.iter().any(|t| first.tags.contains(t)) || s.events.iter().any(|t| first.events.contains(t)) || s.deps.iter().any(|t| first.deps.contains(t))))
+            .collect();
+        if !partners.is_empty() {
+            fns.push(r.pick(&partners).id);
+        }
+    }
     while (fns.len() as u64) < nf {
         let s = if matches!(prop, "C17" | "C18") && r.chance(1, 2) {
             // bias towards caches whose stores evict / expire and towards invalidation groups
@@ -780,6 +864,14 @@ pub fn gen_case(prop: &str, seed: u64) -> (SCase, Sched) {
             let nk = (s.nkeys as u64).min(s.limit.unwrap_or(2) as u64 + 2).max(1);
             if only_calls || r.chance(3, 5) {
                 ops.push(SOp::Call { f, k: r.below(nk) as Key });
+            } else if prop == "C12" {
+                let name = NAMES[r.below(9) as usize].to_string();
+                ops.push(match r.below(5) {
+                    0 | 1 => SOp::InvTag(s.tags.first().map_or(name, |x| x.to_string())),
+                    2 => SOp::InvEvent(s.events.first().map_or(name, |x| x.to_string())),
+                    3 => SOp::InvDep(s.deps.first().map_or(name, |x| x.to_string())),
+                    _ => SOp::InvName(s.reg_name.to_string()),
+                });
             } else {
                 let name = if r.chance(1, 2) { s.reg_name.to_string() } else { NAMES[r.below(9) as usize].to_string() };
                 ops.push(match r.below(12) {
@@ -804,5 +896,5 @@ pub fn gen_case(prop: &str, seed: u64) -> (SCase, Sched) {
         }
         threads.push(ops);
     }
-    (SCase { kind: Kind::L2, fns, threads, shards, salt, fastrand_seed, probe: matches!(prop, "C18") }, sched)
+    (SCase { kind: Kind::L2, fns, threads, shards, salt, fastrand_seed, probe: matches!(prop, "C18"), sequential: false }, sched)
 }
